@@ -120,7 +120,9 @@ def build_strategy(gate: specgen.Gate):
                 node["required"] = req
             schemas[vn] = node
         variants = [{"$ref": f"#/components/schemas/{vn}"} for vn in names]
-        others = draw(st.permutations(SCALARS))[:n_scalar] + draw(st.permutations(CONTAINERS))[:n_container]
+        # container variants: of primitives, or an array of one of the union's own object variants ("one or many")
+        containers = CONTAINERS + [{"type": "array", "items": {"$ref": f"#/components/schemas/{names[0]}"}}] * 4
+        others = draw(st.permutations(SCALARS))[:n_scalar] + draw(st.permutations(containers))[:n_container]
         variants = draw(st.permutations(variants + list(others)))
         keyword = draw(st.sampled_from(["oneOf", "anyOf"]))
         U: dict = {keyword: list(variants)}
@@ -147,6 +149,9 @@ def build_strategy(gate: specgen.Gate):
             for _ in range(draw(st.integers(1, 3))):
                 doc = draw(I.instances(v, schemas, allow_null=False).filter(lambda d: d is not None))
                 payloads.append({"kind": "conforming", "variant": vi, "doc": doc})
+        # payloads of container variants first: they are then the FIRST thing the fresh package's converter ever decodes (no hook
+        # for their element classes has been registered by an earlier decode)
+        payloads.sort(key=lambda p: 0 if isinstance(p["doc"], list) and p["doc"] else 1)
         if disc != "none":
             some = names[0]
             good = draw(I.instances({"$ref": f"#/components/schemas/{some}"}, schemas, allow_null=False))
@@ -239,7 +244,7 @@ def evaluate(case: dict) -> list[Violation]:
 
 
 def shards(tier: str, seed: int) -> list[dict]:
-    n_sh, per = (16, 60) if tier == "quick" else (48, 700)
+    n_sh, per = (16, 120) if tier == "quick" else (48, 700)
     return [{"seed": seed * 1000 + i, "n": per} for i in range(n_sh)]
 
 
